@@ -69,4 +69,26 @@ theorem final_eq (orig ref : Bytes) (s : St) (h : Inv orig ref s) (hd : s.done =
       · exact a i hx
       · exact Or.inr (Or.inl (by omega))
 
+theorem foldl_refStep_keepsRef (ds : List Ev) (r : Bytes) (h : ∀ e ∈ ds, e.keepsRef = true) :
+    ds.foldl refStep r = r := by
+  induction ds generalizing r with
+  | nil => rfl
+  | cons e es ih =>
+    have he := h e (by simp)
+    have : refStep r e = r := by cases e <;> simp_all [refStep, Ev.keepsRef]
+    simp only [List.foldl_cons, this]
+    exact ih r (fun x hx => h x (by simp [hx]))
+
+theorem pread_refWrite (r d : Bytes) (off : Nat) : pread (refWrite r off d) off d.length = d := by
+  unfold pread
+  apply List.ext_getElem?
+  intro j
+  simp only [List.getElem?_take, List.getElem?_drop, refWrite_getElem?]
+  by_cases hj : j < d.length
+  · have h1 : ¬ (off + j < off) := by omega
+    have h2 : off + j < off + d.length := by omega
+    have h3 : off + j - off = j := by omega
+    simp only [hj, h1, h2, h3, ↓reduceIte]
+  · simp [hj]
+
 end Tahoe.Sftp
